@@ -228,7 +228,7 @@ impl GenerationalAtomicStorage {
 pub struct Recency<K> {
     mask: MetricKindMask,
     #[allow(clippy::type_complexity)]
-    inner: Mutex<(Clock, HashMap<K, (Generation, Instant)>)>,
+    inner: Mutex<(Clock, [HashMap<K, (Generation, Instant)>; 3])>,
     idle_timeout: Option<Duration>,
 }
 
@@ -249,7 +249,10 @@ where
     /// Refer to the documentation for [`MetricKindMask`](crate::MetricKindMask) for more
     /// information on defining a metric kind mask.
     pub fn new(clock: Clock, mask: MetricKindMask, idle_timeout: Option<Duration>) -> Self {
-        Recency { mask, inner: Mutex::new((clock, HashMap::new())), idle_timeout }
+        // One table per metric kind: a key registered as, say, both a counter and a gauge names two
+        // independent metrics, each with its own generation and last-seen time.
+        let entries = [HashMap::new(), HashMap::new(), HashMap::new()];
+        Recency { mask, inner: Mutex::new((clock, entries)), idle_timeout }
     }
 
     /// Checks if the given counter should be stored, based on its known recency.
@@ -323,6 +326,11 @@ where
             if self.mask.matches(kind) {
                 let mut guard = self.inner.lock().unwrap_or_else(PoisonError::into_inner);
                 let (clock, entries) = guard.deref_mut();
+                let entries = match kind {
+                    MetricKind::Counter => &mut entries[0],
+                    MetricKind::Gauge => &mut entries[1],
+                    MetricKind::Histogram => &mut entries[2],
+                };
 
                 let now = clock.now();
                 let deleted = if let Some((last_gen, last_update)) = entries.get_mut(key) {
